@@ -104,6 +104,13 @@ def run_keys(ctx, spec):
         else:
           ds.append(rng.bits(rng.randint(2, 33)) + 1)
       ds = [d % n or 1 for d in ds]
+      # a key next to its negation (same x, private keys d and n - d), in
+      # both orders, and a plain duplicate
+      for j in (1, 2, 5):
+        if j < len(ds):
+          ds.insert(rng.below(len(ds) + 1), n - ds[j])
+      ds.append(ds[1] if len(ds) > 1 else 1)
+      ctx.count('negated_key_pairs', 3)
       keys = [gen.ec_key_from_priv(curve, d) for d in ds]
       weak.Check(keys)
       for d, key in zip(ds, keys):
@@ -343,7 +350,8 @@ def finalize(agg, tier):
   c = agg['counters']
   need = ['contract:BatchDL', 'contract:ExtendedBatchDL', 'key_logs_recorded',
           'relations_recorded', 'lattice_guesses_observed', 'guesses_accepted',
-          'sig_logs_recorded', 'logs_verified', 'contract:_IssuerDLogs']
+          'sig_logs_recorded', 'logs_verified', 'contract:_IssuerDLogs',
+          'negated_key_pairs']
   inc = ['reach counter %s is zero' % k for k in need if not c.get(k)]
   if 0 < c.get('lattice_guesses_observed', 0) < 500:
     inc.append('only %d lattice guesses observed' %
